@@ -221,18 +221,30 @@ Proof.
     destruct (Sec.to_bytes_32 y); cbn [bind] in Es; try discriminate. injection Es as <-. reflexivity.
 Qed.
 
-(* the key of the instance decodes back to the point, in both decoder modes, and is a carrier element *)
+(* the key of the instance decodes back to the point, in both decoder modes, and is a carrier element.
+   (Proof hygiene: `eval X` is a match on X; a conversion that makes the kernel head-normalise `eval (esmul ..)` unfolds the
+   carrier test n*G = O.  The steps are kept in separate lemmas whose terms line up syntactically.) *)
+Lemma ec_coords_in se x y : @eval c (esmul c (bz se) G) = Some (x, y) -> inb c (Some (x, y)) = true.
+Proof. intros E. rewrite <- E. exact (proj2_sig (esmul c (bz se) G)). Qed.
+Lemma ec_coords_mk se x y : @eval c (esmul c (bz se) G) = Some (x, y) -> mk c (Some (x, y)) = esmul c (bz se) G.
+Proof. intros E. apply ept_eq. rewrite mk_val_b by exact (ec_coords_in se x y E). symmetry. exact E. Qed.
+Lemma ec_coords_key se x y : @eval c (esmul c (bz se) G) = Some (x, y) -> ec_key (x, y) = Some (esmul c (bz se) G).
+Proof. intros E. unfold ec_key. rewrite (ec_coords_in se x y E). rewrite (ec_coords_mk se x y E). reflexivity. Qed.
+
+Lemma sec_decode_k1 x y comp : 0 <= x < secp256k1_p -> 0 <= y < secp256k1_p ->
+  Sec.contains_point secp256k1_p secp256k1_a secp256k1_b x y = true ->
+  exists sec, Sec.public_pair_to_sec (x, y) comp = Ret sec /\
+              Sec.sec_to_public_pair secp256k1_p secp256k1_a secp256k1_b sec strict = Ret (x, y).
+Proof. exact (Props.C10.C10_sec_decode_roundtrip_secp256k1 x y comp strict). Qed.
+
 Lemma ec_pub_decodes se comp : secret_ok se ->
   exists pr, Sec.sec_to_public_pair secp256k1_p secp256k1_a secp256k1_b (ec_pub_of se comp) strict = Ret pr /\
              ec_key pr = Some (esmul c (bz se) G).
 Proof.
   intros Hse. destruct (ec_pub_spec se Hse) as (x & y & E & Hx & Hy & Hc & Hs).
-  destruct (Props.C10.C10_sec_decode_roundtrip_secp256k1 x y comp strict Hx Hy Hc) as (sec & Es & Ed).
-  destruct (Hs comp) as (sec' & Es' & Ep & _). rewrite Es in Es'. injection Es' as <-.
-  exists (x, y). rewrite Ep. split; [exact Ed|].
-  unfold ec_key. unfold ecoords in E.
-  assert (I : inb c (Some (x, y)) = true) by (rewrite <- E; exact (proj2_sig (esmul c (bz se) G))).
-  rewrite I. apply (f_equal (@Some (ept c))). apply ept_eq. rewrite mk_val_b by exact I. symmetry. exact E.
+  destruct (sec_decode_k1 x y comp Hx Hy Hc) as (sec & Es & Ed).
+  destruct (Hs comp) as (sec' & Es' & Ep & _).
+  exists (x, y). split; [rewrite Ep; congruence|]. exact (ec_coords_key se x y E).
 Qed.
 
 (* ---- the three interface hypotheses of Props/C05.v, on their true domain ------------------------------------------ *)
